@@ -45,7 +45,7 @@ class Contract:
                  types=None, returns=None, trusted=False, inline=False, pure=False, variant=None,
                  may_suspend=False, notes="", self_type=None, env=None, assume_no_raise=(), ghost=(),
                  pre_lemmas=(), post_lemmas=(), verify=True, call_inline=False, abstract=False, yields=None,
-                 rely=(), rely_havoc=(), cancellable=False, ghost_exit=(), hints=(), axioms=(), callee_variant=None):
+                 rely=(), rely_havoc=(), cancellable=False, ghost_exit=(), hints=(), axioms=(), callee_variant=None, site_pre=None):
         self.qualname = qualname
         self.props = tuple(props)
         self.requires = _clauses(requires, props)
@@ -75,6 +75,8 @@ class Contract:
         self.cancellable = cancellable
         self.ghost_exit = list(ghost_exit)
         self.axioms = _clauses(axioms)          # valid axiom instances (sum axioms) assumed at entry and at every exit
+        # extra obligations demanded at a call site of this function: {"<callee name>#<ordinal>": [clauses]}
+        self.site_pre = {k: _clauses(v, props) for k, v in (site_pre or {}).items()}
         self.hints = _clauses(hints, props)     # Dafny-style asserts at entry: proved, then assumed
 
     @property
